@@ -88,6 +88,9 @@ struct C20 : Harness {
             if (tool != 2 && *chance(70)) { int l = *rc::gen::weightedOneOf<int>({{2, rc::gen::just(bs)}, {3, irange(1, bs)}}); c.set("ctr", *gcounter(l)); }
             int flen = *rc::gen::weightedOneOf<int>({{4, rc::gen::element(0, 1, bs - 1, bs, bs + 1, 1023, 1024, 1025, 2047, 2048, 2049, 2048 + bs + 3)}, {3, irange(0, 5000)}, {2, irange(0, 100)}});
             c.set("file", *gdata(flen));
+            // now and then the input arrives through a FIFO whose writer pauses after `fifo` bytes (a pipe is a file too:
+            // `producer | tool /dev/stdin out`): the reader sees a short read in mid-stream
+            if (flen > 0 && *chance(10)) c.set("fifo", *rc::gen::weightedOneOf<int>({{3, irange(1, std::max(1, flen))}, {2, rc::gen::element(1, bs - 1, bs + 1, 100, 1000, 1023, 1025)}}));
             p.push_back(c);
             return p;
         });
@@ -209,9 +212,39 @@ struct C20 : Harness {
         std::vector<std::string> gk = {"-k", hex(key)}, gc;
         if (ctr && tool != 2) gc = {tool == 1 ? "-t" : "-c", hex(*ctr)};
         std::vector<std::string> a = arrange({base, gk, gc}, order);
-        std::vector<std::string> enc = a; enc.push_back(in); enc.push_back(out);
+        long long fifo = c.geti("fifo");
+        std::string inpath = in;
+        pid_t writer = -1;
+        if (fifo > 0) {
+            inpath = tmp + "/in.fifo";
+            unlink(inpath.c_str());
+            if (mkfifo(inpath.c_str(), 0600) != 0) fifo = 0, inpath = in;
+            else {
+                writer = fork();
+                if (writer == 0) {
+                    int fd = open(inpath.c_str(), O_WRONLY);
+                    if (fd < 0) _exit(1);
+                    size_t first = std::min<size_t>((size_t)fifo, file.size());
+                    size_t off = 0;
+                    while (off < first) { ssize_t w = write(fd, file.data() + off, first - off); if (w <= 0) _exit(1); off += (size_t)w; }
+                    if (off < file.size()) usleep(4000);
+                    while (off < file.size()) { ssize_t w = write(fd, file.data() + off, file.size() - off); if (w <= 0) _exit(1); off += (size_t)w; }
+                    close(fd);
+                    _exit(0);
+                }
+            }
+        }
+        std::vector<std::string> enc = a; enc.push_back(inpath); enc.push_back(out);
         int rc = run_tool(names[tool], enc);
+        if (writer > 0) { kill(writer, SIGKILL); int wst; waitpid(writer, &wst, 0); unlink(inpath.c_str()); }
+        if (rc != 0 && fifo > 0) {
+            // a tool may insist on a seekable input - but then it has to say so: no output, non-zero status
+            struct stat sb; if (stat(out.c_str(), &sb) == 0 && sb.st_size > 0) return std::string(names[tool]) + " exited with status " + std::to_string(rc) + " for a FIFO input but left output behind";
+            if (!st.shrinking) { st.count("fifo-input-refused"); st.case_done(ser(p), true); }
+            return "";
+        }
         if (rc != 0) return std::string(names[tool]) + " exited with status " + std::to_string(rc) + " for a valid invocation";
+        if (fifo > 0 && !st.shrinking) st.count("fifo-input-with-pause");
         std::string got = read_file(out);
         Bytes gotb(got.begin(), got.end());
         Bytes want = tool == 0 ? lib_ctr(bs, key, ctr, file) : tool == 1 ? lib_tweak(bs, key, ctr, file, false) : lib_ecb(bs, key, file, false);
